@@ -91,6 +91,7 @@ fn base_ops() -> Vec<(&'static str, u32)> {
         ("into_vec", 1),
         ("deser_seq", 0),
         ("adaptor_iter_mut", 0),
+        ("adaptor_sorted", 0),
     ]
 }
 
@@ -151,7 +152,7 @@ pub fn profile(prop: u8, thorough: bool) -> Profile {
         }
         6 => {
             p.big_w = 8;
-            p.ops = with(p.ops, &[("sorted", 14), ("sorted_iter", 4), ("retain", 1), ("drain", 0), ("clear", 0)]);
+            p.ops = with(p.ops, &[("sorted", 14), ("sorted_iter", 4), ("adaptor_sorted", 8), ("retain", 1), ("drain", 0), ("clear", 0)]);
             p.size_w = [1, 1, 1, 2, 6, 2, 0, 0];
             p.dom_w = [4, 4, 2, 1];
             p.max_ops = if thorough { 60 } else { 30 };
@@ -458,6 +459,9 @@ pub fn op_strategy(p: &Profile, kind: Kind, u: u32, dom: u8) -> BoxedStrategy<Op
                 any::<u8>(),
             )
                 .prop_map(|(which, comp, a, b)| Op::Adapt { which, comp, a, b })
+                .boxed(),
+            "adaptor_sorted" => (proptest::sample::select(ALL_COMPS.to_vec()), any::<u8>(), any::<u8>())
+                .prop_map(|(comp, a, b)| Op::Adapt { which: ItKind::Sorted, comp, a, b })
                 .boxed(),
             "adaptor_iter_mut" => (proptest::sample::select(ALL_COMPS.to_vec()), any::<u8>(), any::<u8>())
                 .prop_map(|(comp, a, b)| Op::Adapt { which: ItKind::IterMut, comp, a, b })
